@@ -7,9 +7,9 @@
     response serialises, data or errors; and the stage-contract checks of the composed model hold.
     Every other stream goes to the glue check (Pipe/PipelineCheck.v).  Executable only. *)
 From Coq Require Import List NArith ZArith Bool String Ascii.
-From ApiFu Require Import Base.Sexp Pipe.PipelineModel Pipe.PipelineCheck Pipe.Convert Pipe.Compose Pipe.SchemaAgree Pipe.CostCompose.
+From ApiFu Require Import Base.Sexp Pipe.PipelineModel Pipe.PipelineCheck Pipe.Convert Pipe.Compose Pipe.SchemaAgree Pipe.CostCompose Pipe.SubscribeCompose.
 From ApiFu Require Val.Values Val.CoerceSpec.
-From ApiFu Require Syn.Ast Syn.ParserModel Syn.FrontEnd Vld.Ast Vld.Inspect Vld.TypeInfoModel Vld.ValidatorModel Vld.Decode Vld.ValidatorCheck ExeA.ArgData ExeA.ArgModel ExeA.ArgHyps ExeA.ArgDecode ExeA.ArgCheck.
+From ApiFu Require Syn.Ast Syn.ParserModel Syn.FrontEnd Vld.Ast Vld.Inspect Vld.TypeInfoModel Vld.ValidatorModel Vld.Decode Vld.ValidatorCheck Vld.Hyps ExeA.ArgArgs ExeA.ArgData ExeA.ArgModel ExeA.ArgHyps ExeA.ArgDecode ExeA.ArgCheck.
 Import ListNotations.
 Open Scope string_scope.
 
@@ -47,7 +47,6 @@ Definition of_presult (r : presult) : sexp :=
   | PSyntax e es => tag "syntax" (map of_vpos (syn_locs (e :: es)))
   | PInvalid e es => tag "invalid" (map (fun x => SL (map of_vpos (Vld.Ast.e_locs x))) (e :: es))
   | PExecuted d errs => tag "executed" [ExeA.ArgCheck.of_run (ExeA.ArgModel.Done d errs)]
-  | PUnevaluable x => tag "unevaluable" [ExeA.ArgCheck.of_run x]
   | PContractBroken CPositions => tag "contract-broken" [SSym "positions"]
   | PContractBroken CDocOk => tag "contract-broken" [SSym "doc-ok"]
   | PPanic _ => tag "panic" []
@@ -73,7 +72,50 @@ Definition locations_stable (VS : Vld.Ast.schema) (F : Vld.Ast.features) (bs : b
 Definition has_errors (o : ExeA.ArgDecode.observed) : bool :=
   match o with ExeA.ArgDecode.ObsDone _ (_ :: _) => true | _ => false end.
 
-Definition judge_composed (kind : string) (VS : Vld.Ast.schema) (F : Vld.Ast.features) (ES : ExeA.ArgData.schema)
+(** asynchronous resolvers (kinds "async"): C02 — the data is the synchronous executor's whatever
+    the schedule; WHICH errors are reported may differ (the synchronous executor stops a selection
+    set at the first failing non-null field, the asynchronous one has started the others; when the
+    root is nulled, errors of fields still outstanding are not collected), so of the errors only
+    "some / none" is compared *)
+Definition agrees_async (m : ExeA.ArgModel.run_result) (o : ExeA.ArgDecode.observed) : bool :=
+  match m, o with
+  | ExeA.ArgModel.Done d es, ExeA.ArgDecode.ObsDone d' es' =>
+      ExeA.ArgCheck.data_agrees d d' && Bool.eqb (match es with [] => true | _ => false end) (match es' with [] => true | _ => false end)
+      && match d with Some j => ExeA.ArgDecode.marshals j | None => true end
+  | _, _ => false
+  end.
+
+(** the request has a @skip/@include whose condition has no boolean value among the coerced
+    variables (a nullable variable with a default, given null): covered by C01's dirs-free theorems;
+    counted as a class *)
+Definition request_unevaluable (ES : ExeA.ArgData.schema) (bs opname : bytes)
+           (raw : list (ExeA.ArgData.name * Val.Values.jval)) : bool :=
+  match Syn.FrontEnd.parse_document_bytes bs with
+  | Syn.ParserModel.Out (Some d) [] =>
+      match ExeA.ArgModel.get_operation (exe_of_syn d) opname with
+      | ExeA.ArgModel.GOp o =>
+          match ExeA.ArgModel.coerce_request_vars ES o raw with
+          | Val.Values.Ok vv =>
+              negb (ExeA.ArgHyps.dirs_evaluable (ExeA.ArgData.doc_of (exe_of_syn d) o vv) (ExeA.ArgArgs.env_of_vars vv))
+          | _ => false
+          end
+      | _ => false
+      end
+  | _ => false
+  end.
+
+(** the decidable hypotheses of C04's theorems about the schema (as C04's check evaluates them) and
+    about the positions of the parsed document *)
+Definition vschema_hypotheses (VS : Vld.Ast.schema) : bool :=
+  Vld.Hyps.schema_ok VS && Vld.Hyps.schema_args_ok VS && Vld.Hyps.schema_impls_ok VS
+  && Vld.Hyps.schema_defaults_ok VS && Vld.Hyps.schema_ifaces_ok VS.
+Definition parsed_positions_ok (bs : bytes) : bool :=
+  match Syn.FrontEnd.parse_document_bytes bs with
+  | Syn.ParserModel.Out (Some d) [] => Vld.Hyps.doc_positions_ok (vld_of_syn d)
+  | _ => true
+  end.
+
+Definition judge_composed (async : bool) (kind : string) (VS : Vld.Ast.schema) (F : Vld.Ast.features) (ES : ExeA.ArgData.schema)
            (bs : bytes) (opname : bytes) (raw : list (ExeA.ArgData.name * Val.Values.jval)) (W : ExeA.ArgData.outcome) (obs : seen) : sexp :=
   let m := pipeline_model VS F ES bs opname raw W in
   let mism (what : string) := v_mismatch what [of_presult m] in
@@ -105,17 +147,12 @@ Definition judge_composed (kind : string) (VS : Vld.Ast.schema) (F : Vld.Ast.fea
   | PExecuted d errs =>
       match obs with
       | SeenExecuted o =>
-          if ExeA.ArgCheck.agrees (ExeA.ArgModel.Done d errs) o then
-            cls ((match d with Some _ => "composed-executed-data" | None => "composed-executed-null-data" end)
-                 :: (if has_errors o then ["composed-execution-errors"] else []) ++ ["nontrivial"])
+          if (if async then agrees_async (ExeA.ArgModel.Done d errs) o else ExeA.ArgCheck.agrees (ExeA.ArgModel.Done d errs) o) then
+            cls (List.app (if async then ["composed-async"] else [])
+                (List.app (if request_unevaluable ES bs opname raw then ["composed-directive-not-evaluable"] else [])
+                   ((match d with Some _ => "composed-executed-data" | None => "composed-executed-null-data" end)
+                    :: (if has_errors o then ["composed-execution-errors"] else []) ++ ["nontrivial"])))
           else mism "composed-response"
-      | _ => mism "composed-class"
-      end
-  | PUnevaluable x =>
-      match obs with
-      | SeenExecuted o =>
-          if ExeA.ArgCheck.agrees x o then cls ["composed-directive-not-evaluable"; "nontrivial"]
-          else mism "composed-response-unevaluable"
       | _ => mism "composed-class"
       end
   end.
@@ -162,6 +199,57 @@ Definition judge_cost (VS : Vld.Ast.schema) (F : Vld.Ast.features) (ES : ExeA.Ar
       end
   end.
 
+(** ** graphql.Subscribe on the same request: [(subscribe (obs syntax | invalid | (error n path) | source))] *)
+Definition of_pathc (c : ExeA.ArgData.pathc) : sexp :=
+  match c with ExeA.ArgData.PKey k => SStr k | ExeA.ArgData.PIdx i => of_N i end.
+Fixpoint path_eqb (a b : ExeA.ArgData.rpath) : bool :=
+  match a, b with
+  | [], [] => true
+  | x :: a', y :: b' => ExeA.ArgData.pathc_eqb x y && path_eqb a' b'
+  | _, _ => false
+  end.
+
+Definition judge_subscribe (VS : Vld.Ast.schema) (F : Vld.Ast.features) (ES : ExeA.ArgData.schema)
+           (bs opname : bytes) (raw : list (ExeA.ArgData.name * Val.Values.jval)) (W : ExeA.ArgData.outcome)
+           (so : list sexp) (verdict : sexp) : sexp :=
+  match tagged "ok" verdict with
+  | None => verdict
+  | Some _ =>
+      match field1 "obs" so with
+      | Some ob =>
+          match untag ob with
+          | Some (t, args) =>
+              if String.eqb t "skipped" then verdict
+              else if String.eqb t "panic" || String.eqb t "timeout" then v_oracle_fail (String.append "subscribe-" t) [ob]
+              else
+                let m := subscribe_model VS F ES bs opname raw W in
+                let show := match m with
+                            | SubSyntax _ _ => tag "syntax" [] | SubInvalid _ _ => tag "invalid" []
+                            | SubError p => tag "error" [of_list of_pathc p] | SubSource _ => tag "source" []
+                            | SubPanic _ => tag "panic" [] | SubOutOfFuel _ => tag "out-of-fuel" []
+                            end in
+                match m, args with
+                | SubSyntax _ _, [] => if String.eqb t "syntax" then add_classes verdict ["subscribe-syntax-rejected"] else v_mismatch "subscribe-class" [show]
+                | SubInvalid _ _, [] => if String.eqb t "invalid" then add_classes verdict ["subscribe-validation-rejected"] else v_mismatch "subscribe-class" [show]
+                | SubSource _, [] => if String.eqb t "source" then add_classes verdict ["subscribe-source"] else v_mismatch "subscribe-class" [show]
+                | SubError p, [SZ n; SL ps] =>
+                    if String.eqb t "error" && Z.eqb n 1 then
+                      match map_opt ExeA.ArgDecode.dec_pathc ps with
+                      | Some p' => if path_eqb p p' then
+                                     add_classes verdict [match p with [] => "subscribe-refused" | _ => "subscribe-resolver-error" end]
+                                   else v_mismatch "subscribe-error-path" [show]
+                      | None => v_bad "subscribe-path"
+                      end
+                    else v_mismatch "subscribe-class" [show]
+                | SubPanic _, _ | SubOutOfFuel _, _ => v_mismatch "subscribe-model-crashed" [show]
+                | _, _ => v_mismatch "subscribe-class" [show]
+                end
+          | None => v_bad "subscribe-observed"
+          end
+      | None => v_bad "subscribe-fields"
+      end
+  end.
+
 Definition check_composed (l : list sexp) : sexp :=
   match field1 "kind" l, field1 "query" l, field1 "op" l, field1 "features" l, field1 "vschema" l,
         field1 "eschema" l, field1 "rawvars" l, field1 "world" l, field1 "observed" l, field "outcome" l with
@@ -183,11 +271,18 @@ Definition check_composed (l : list sexp) : sexp :=
             | Some F, Some VS, Some ES, Some raw, Some W, Some obs =>
                 if negb (ExeA.ArgHyps.type_names_okb ES && cost_schema_accepted ES) then v_bad "schema-hypotheses-do-not-hold"
                 else if negb (schemas_agree VS ES) then v_bad "schema-encodings-disagree"
+                else if negb (es_wf ES) then v_bad "eschema-not-well-formed"
+                else if negb (vschema_hypotheses VS) then v_bad "vschema-hypotheses-do-not-hold"
+                else if negb (parsed_positions_ok bs) then v_oracle_fail "stage-contract-broken:parser-positions-not-distinct" []
                 else
-                  let v := judge_composed kind VS F ES bs op raw W obs in
-                  match field "cost" l with
-                  | Some co => judge_cost VS F ES bs op raw co v
-                  | None => v
+                  let v := judge_composed (match field1 "async" l with Some a => match as_bool a with Some b => b | None => false end | None => false end) kind VS F ES bs op raw W obs in
+                  let v1 := match field "cost" l with
+                            | Some co => judge_cost VS F ES bs op raw co v
+                            | None => v
+                            end in
+                  match field "subscribe" l with
+                  | Some so => judge_subscribe VS F ES bs op raw W so v1
+                  | None => v1
                   end
             | None, _, _, _, _, _ => v_bad "features"
             | _, None, _, _, _, _ => v_bad "vschema"
